@@ -15,7 +15,7 @@ PROPERTY = 'C11'
 LEVEL = 'model_checking'
 CHUNK = {'quick': 60, 'thorough': 150}
 RULE = ('events: cd {new sub-directory, .., -rel-tmp, -rel-act}; env X = v | "${X}b" | "${Y}" | "${nope}c", env unset X | Y, each with no phase spec, -of act, '
-        '-of !act; timeout = 3 | 7 | none; advance to the next phase (setup -> [act] -> before-assert -> assert -> cleanup). BFS over histories to depth 4 '
+        '-of !act; timeout = 3 | 7 | none; env Y = -stdout-from PROGRAM with each phase spec (the program must run once per changed set, in that set's environment); advance to the next phase (setup -> [act] -> before-assert -> assert -> cleanup). BFS over histories to depth 4 '
         '(thorough 6) with deduplication on the reference state; every transition = one real execution with a probe after every event; non-trivial = the '
         'reference state after the history differs from the initial one')
 ASSUMPTIONS = [
@@ -29,7 +29,8 @@ SPECS = ('', '-of act ', '-of !act ')
 ENVOPS = [('set', 'X', 'v'), ('set', 'X', '${X}b'), ('set', 'X', '${Y}'), ('set', 'X', '${nope}c'), ('unset', 'X', None), ('unset', 'Y', None)]
 EVENTS = ([('cd', k) for k in ('new', 'up', 'tmp', 'act')] +
           [('env', spec, op) for spec in range(3) for op in range(len(ENVOPS))] +
-          [('timeout', v) for v in (3, 7, None)] + [('next',)])
+          [('timeout', v) for v in (3, 7, None)] + [('next',)] +
+          [('envprog', spec) for spec in range(3)])
 BASE_ENV = {'Y': 'y0'}
 
 
@@ -90,6 +91,18 @@ def step(st, ev):
             for s in sets:
                 st[s].pop(name, None)
         return st, lines
+    if k == 'envprog':
+        # `env [-of ..] Y = -stdout-from % valprobe`: the program runs in the environment of each set that is changed
+        spec = SPECS[ev[1]]
+        sets = {'': ('act', 'nonact'), '-of act ': ('act',), '-of !act ': ('nonact',)}[spec]
+        if st['phase'] > 0:
+            # after [setup] the action to check has been configured: a change of its set has nothing left to affect (probed: the value is not computed)
+            sets = tuple(x for x in sets if x != 'act')
+        st.setdefault('valprobes', [])
+        st['valprobes'] = list(st['valprobes']) + [(tuple(sorted((k_, v_) for k_, v_ in st[s_].items() if k_ in ('X', 'Y'))), st['timeout'], st['cwd']) for s_ in sets]
+        for s_ in sets:
+            st[s_]['Y'] = 'val'
+        return st, ['env %sY = -stdout-from %% valprobe' % spec]
     if k == 'timeout':
         st['timeout'] = ev[1]
         return st, ['timeout = %s' % ('none' if ev[1] is None else ev[1])]
@@ -249,6 +262,7 @@ def run(case) -> Result:
     seam = procseam.SEAM
     seam.reset()
     seam.env_keys = ('X', 'Y')
+    seam.script['valprobe'] = {'out': 'val'}
     text, exp, graph, final = build(hist)
     o = cli.run_case(text)
     errs = []
@@ -256,7 +270,13 @@ def run(case) -> Result:
         errs.append('exception / hang: %s' % o.exc)
     if o.rc != 0 or o.out != 'PASS\n':
         errs.append('the generated case must PASS: rc=%s %s / %s' % (o.rc, o.out.strip(), ' / '.join(cli.stderr_lines(o.err)[:6])))
-    calls = seam.calls
+    valcalls = [c for c in seam.calls if c['name'] == 'valprobe']
+    calls = [c for c in seam.calls if c['name'] != 'valprobe']
+    want_val = sorted(final.get('valprobes', []))
+    got_val = sorted((tuple(sorted((c['env'] if c['env'] is not None else BASE_ENV).items())), c['timeout'],
+                      tuple(os.path.relpath(c['cwd'], os.path.dirname(calls[0]['cwd'])).split('/')) if calls else ()) for c in valcalls)
+    if got_val != want_val:
+        errs.append('programs giving the value of `env` ran with (environment, timeout, cwd) %s, expected one per changed set: %s' % (got_val, want_val))
     if len(calls) != len(exp):
         errs.append('%d processes started, expected %d' % (len(calls), len(exp)))
     sds = None
